@@ -230,7 +230,11 @@ Inductive p402_case :=
 | CIndirect (from : string)                                (* State402.next_state_indirect *)
 | CSet (sw_by_pdo : bool) (start : Z) (target : string) (sched : list bool) (extra : Z)
 | COpMode (mode : string) (support : Z) (display : Z) (lag : nat)
-| CSupported (mode : string) (support : Z).
+| CSupported (mode : string) (support : Z)
+(* two assignments node.op_mode = mode; the drive aborts the upload of 0x6502 with [code] during the first one
+   only, or always.  self.sdo[0x6502].raw raises SdoAbortedError, which none of the setter's except clauses
+   catches and which leaves _op_mode_support unset: nothing is written, the next assignment reads 0x6502 again. *)
+| COpModeAbort (always : bool) (code : Z) (mode : string) (support : Z) (display : Z) (lag : nat).
 
 Definition pc_val (p : pc) : val :=
   match p with
@@ -260,4 +264,9 @@ Definition run_p402 (c : p402_case) : val :=
       let '(r, d) := set_op_mode 600 mode (mdrive_init support display lag) in
       VL [res_val (fun _ => VNone) r; VL (map VZ (rev (m_writes d))); VZ (m_reads d)]
   | CSupported mode support => res_val VBool (is_op_mode_supported mode support)
+  | COpModeAbort always code mode support display lag =>
+      if always then VL [VAbort code; VAbort code; VL []; VZ 0]
+      else
+        let '(r, d) := set_op_mode 600 mode (mdrive_init support display lag) in
+        VL [VAbort code; res_val (fun _ => VNone) r; VL (map VZ (rev (m_writes d))); VZ (m_reads d)]
   end.
